@@ -3,6 +3,7 @@ package rules
 import (
 	"fmt"
 	"go/token"
+	"go/types"
 	"strings"
 
 	"golang.org/x/tools/go/ssa"
@@ -216,6 +217,46 @@ func R05() Rule {
 	}}
 }
 
+// freshMessage: v, used in function f, is a message allocated by this very invocation of f —
+// an allocation of f itself, or the result of a helper called here every non-nil result of
+// which is the helper's own allocation.
+func freshMessage(v ssa.Value, f *ssa.Function, depth int) bool {
+	v = core.Resolve(v)
+	switch x := v.(type) {
+	case *ssa.Alloc:
+		return x.Parent() == f
+	case *ssa.Call:
+		g := x.Call.StaticCallee()
+		if x.Parent() != f || g == nil || g.Blocks == nil || depth > 3 {
+			return false
+		}
+		n := 0
+		for _, r := range returnsIn(g) {
+			if len(r.Results) < 1 {
+				return false
+			}
+			for _, rv := range returnValues(r.Results[0]) {
+				if core.IsNilConst(core.Resolve(rv)) {
+					continue
+				}
+				if !freshMessage(rv, g, depth+1) {
+					return false
+				}
+				n++
+			}
+		}
+		return n > 0
+	case *ssa.Phi:
+		for _, e := range x.Edges {
+			if !core.IsNilConst(core.Resolve(e)) && !freshMessage(e, f, depth+1) {
+				return false
+			}
+		}
+		return len(x.Edges) > 0
+	}
+	return false
+}
+
 // ---------------------------------------------------------------------------
 // R21: durability ordering and wiring
 // ---------------------------------------------------------------------------
@@ -227,34 +268,59 @@ func R21() Rule {
 		set := P.MustFunc(core.PkgBttest, "LeveldbDiskStorage.SetTableMeta")
 		c.Fn(core.FuncName(set))
 		var writes, renames []*ssa.Call
-		for _, ci := range core.AllCalls(set) {
-			call, ok := ci.Instr.(*ssa.Call)
-			if !ok {
-				continue
-			}
-			switch {
-			case ci.IsFunc("os", "WriteFile"), ci.IsFunc("os", "Create"), ci.IsFunc("os", "OpenFile"), ci.IsFunc("io/ioutil", "WriteFile"):
-				writes = append(writes, call)
-			case ci.IsFunc("os", "Rename"):
-				renames = append(renames, call)
+		// SetTableMeta together with the phases it is split into
+		setScope := P.Scope(set, func(f *ssa.Function) bool { return core.PkgPathOf(f) != core.PkgBttest })
+		setSet := setOf(setScope)
+		isWrite := func(ci *core.CallInfo) bool {
+			return ci.IsFunc("os", "WriteFile") || ci.IsFunc("os", "Create") || ci.IsFunc("os", "OpenFile") || ci.IsFunc("io/ioutil", "WriteFile")
+		}
+		for _, sf := range setScope {
+			for _, ci := range core.AllCalls(sf) {
+				call, ok := ci.Instr.(*ssa.Call)
+				if !ok {
+					continue
+				}
+				switch {
+				case isWrite(ci):
+					writes = append(writes, call)
+				case ci.IsFunc("os", "Rename"):
+					renames = append(renames, call)
+				}
 			}
 		}
 		ok := len(writes) == 1 && len(renames) == 1
 		why := fmt.Sprintf("expected one file write and one rename, found %d and %d", len(writes), len(renames))
 		if ok {
-			w, r := writes[0], renames[0]
+			r := renames[0]
+			// the rename is reached only after a successful write of the very file it renames: at the
+			// rename, in every calling context, or at the success return of a phase helper
+			// (validator / predicate summaries of core.InAllContexts)
+			written := P.InAllContexts(r, []ssa.Value{r.Call.Args[0]}, setSet, func(at ssa.Instruction, vals []ssa.Value) bool {
+				if vals[0] == nil {
+					return false
+				}
+				for _, ci := range core.AllCalls(at.Parent()) {
+					w, isCall := ci.Instr.(*ssa.Call)
+					if !isCall || !isWrite(ci) || !core.SameValue(w.Call.Args[0], vals[0]) {
+						continue
+					}
+					if core.InstrDominates(w, at) && errNilEdge(w, at.Block()) {
+						return true
+					}
+				}
+				return false
+			})
 			switch {
-			case !core.SameValue(w.Call.Args[0], r.Call.Args[0]):
-				ok, why = false, "the file that is written is not the one that is renamed"
 			case core.SameValue(r.Call.Args[0], r.Call.Args[1]):
 				ok, why = false, "rename source and target are the same path"
-			case !core.InstrDominates(w, r):
-				ok, why = false, "the rename is not preceded by the write on every path"
-			case !errNilEdge(w, r.Block()):
-				ok, why = false, "the rename also happens when writing the temp file failed (a truncated file replaces the good one)"
+			case !written:
+				ok, why = false, "the rename is not preceded, on every path, by a successful write of the file it renames (a truncated or missing file replaces the good one)"
 			}
 			// the final path must contain the metadata suffix and differ from tmp
-			if s, isS := suffixConst(r.Call.Args[1]); ok && (!isS || !strings.HasSuffix(s, ".table.proto")) {
+			if ok && !P.AllOrigins(r.Call.Args[1], setSet, func(o ssa.Value) bool {
+				s, isS := suffixConst(o)
+				return isS && strings.HasSuffix(s, ".table.proto")
+			}) {
 				ok, why = false, "the rename target is not the *.table.proto file GetTables looks for"
 			}
 		}
@@ -353,6 +419,22 @@ func R21() Rule {
 				}
 			}
 		}
+		// the optional interface is asserted on the Storage *value* the server was given: a storage
+		// type that satisfies Storage as a value (and is passed around as one) must have the method
+		// in its value method set — with a pointer receiver the assertion fails silently
+		if impl != nil && impl.Signature.Recv() != nil {
+			if nm := core.NamedOf(impl.Signature.Recv().Type()); nm != nil {
+				if stObj := P.Pkgs[core.PkgBttest].Types.Scope().Lookup("Storage"); stObj != nil {
+					if iface, isI := stObj.Type().Underlying().(*types.Interface); isI && types.Implements(nm, iface) {
+						inValueSet := types.NewMethodSet(nm).Lookup(nm.Obj().Pkg(), impl.Name()) != nil
+						c.Check(inValueSet, "R21", "D3/optional-method-in-value-method-set", impl.Pos(), "the storage type is used as a value and declares the optional method on the value receiver", "D3: "+core.TName(nm)+" satisfies Storage as a value but declares "+impl.Name()+" on the pointer receiver: the server's `storage.(interface{ "+impl.Name()+"(string) })` assertion fails silently for the value it holds, the metadata file stays, and a deleted table reappears after a restart")
+						if !inValueSet {
+							okImpl = false
+						}
+					}
+				}
+			}
+		}
 		// the removal happens in the same critical section of the registry as the map delete:
 		// otherwise a CreateTable of the same name can slip in and have its fresh metadata removed
 		la := Locks(P)
@@ -393,8 +475,7 @@ func R21() Rule {
 							for _, rr := range core.Referrers(ia) {
 								if st, ok := rr.(*ssa.Store); ok && core.TypeIs(st.Val.Type(), "cloud.google.com/go/bigtable/admin/apiv2/adminpb", "Table") {
 									nApp++
-									a, isAlloc := core.Resolve(st.Val).(*ssa.Alloc)
-									if !isAlloc || a.Parent() != f {
+									if !freshMessage(st.Val, f, 0) {
 										okFresh = false
 									}
 								}
